@@ -3,6 +3,7 @@ package props
 import (
 	"encoding/json"
 	"fmt"
+	"net/url"
 	"sort"
 	"strings"
 
@@ -188,7 +189,65 @@ func (c08) Gen(r *sim.RNG, tier string, idx int) *Scenario {
 		n = 4
 	}
 	sc.OrderKeys = OrderKeysFor(r.Uint64(), n)
+	if sc.Opts.Continue && excluded["continue-kept-ref-reinterpreted-from-root"] {
+		excludeF16(w, sc.Plans)
+	}
 	return sc
+}
+
+// excludeF16 implements the generator exclusion of known finding F16: in continue mode an
+// unresolvable $ref found in another document is kept verbatim inside content that is copied into
+// the in-memory root, and is read again from the root's location by a later expansion. The region
+// removed: a $ref in a non-root document that is (or under some fault plan may be) unresolvable
+// where it stands but resolves when read from the root's location. Such references are respelled
+// as absolute URLs of what they designate - still unresolvable, no longer re-interpretable.
+func excludeF16(w *model.World, plans [][]sim.Fault) {
+	faulty := map[string]bool{}
+	for _, pl := range plans {
+		for _, f := range pl {
+			faulty[f.URL] = true
+		}
+	}
+	var visit func(u string, v interface{})
+	visit = func(u string, v interface{}) {
+		switch c := v.(type) {
+		case map[string]interface{}:
+			if ref, ok := c["$ref"].(string); ok {
+				d1, p1, err := model.Locate(u, ref)
+				if err != nil {
+					return
+				}
+				_, rerr := w.Resolve(u, ref, model.KSchema)
+				if rerr == nil && !faulty[d1] {
+					return
+				}
+				d2, p2, err := model.Locate(w.Root, ref)
+				if err != nil || (d1 == d2 && p1 == p2) {
+					return
+				}
+				if _, err := w.Resolve(w.Root, ref, model.KSchema); err == nil {
+					frag := ""
+					if p1 != "" {
+						frag = (&url.URL{Fragment: p1}).String()
+					}
+					c["$ref"] = d1 + frag
+				}
+				return
+			}
+			for _, x := range c {
+				visit(u, x)
+			}
+		case []interface{}:
+			for _, x := range c {
+				visit(u, x)
+			}
+		}
+	}
+	for u, d := range w.Docs {
+		if u != w.Root {
+			visit(u, d)
+		}
+	}
 }
 
 func badClasses(reach *model.Reach) string {
